@@ -30,12 +30,25 @@ static std::string expected_request(const ReqSpec& s)
         typed.push_back(std::string(req_headers()[h].name) + "=" + req_headers()[h].text);
         raw.push_back(std::string(req_headers()[h].name) + "=" + req_headers()[h].text);
     }
-    typed.push_back("User-Agent=pistache/0.1");
-    raw.push_back("User-Agent=pistache/0.1");
+    // the client appends its own User-Agent and Host after the caller's headers; the first occurrence wins
+    bool ownUA = false, ownHost = false;
+    for (int h : s.headers)
+    {
+        ownUA |= !strcmp(req_headers()[h].name, "User-Agent");
+        ownHost |= !strcmp(req_headers()[h].name, "Host");
+    }
+    if (!ownUA)
+    {
+        typed.push_back("User-Agent=pistache/0.1");
+        raw.push_back("User-Agent=pistache/0.1");
+    }
     std::string host = resources()[s.resource].host;
     std::string hv   = host + (host.find(':') != std::string::npos ? "" : ":80");
-    typed.push_back("Host=" + hv);
-    raw.push_back("Host=" + hv);
+    if (!ownHost)
+    {
+        typed.push_back("Host=" + hv);
+        raw.push_back("Host=" + hv);
+    }
     const std::string& body = gBodies[s.body];
     if (!body.empty())
     {
